@@ -40,6 +40,13 @@ CONSTRUCTS = {
     "use_glob_only": "use foo::*;\nuse self::x::*;\n#[typeshare]\npub struct Edge { pub a: Other }\n",
     "const_int": "#[typeshare]\npub const EDGE: u32 = 5;\n",
     "const_string": '#[typeshare]\npub const EDGE: &str = "x";\n',
+    # the types typeshare never shares (C08), as the type of a constant: a diagnostic, whatever the backend would do with them
+    "const_usize": "#[typeshare]\npub const EDGE: usize = 250;\n",
+    "const_u64": "#[typeshare]\npub const EDGE: u64 = 1;\n",
+    "const_i64_neg": "#[typeshare]\npub const EDGE: i64 = -1;\n",
+    "const_bool": "#[typeshare]\npub const EDGE: bool = true;\n",
+    "const_user_type": "#[typeshare]\npub type Seats = u32;\n#[typeshare]\npub const EDGE: Seats = 5;\n",
+    "const_option": "#[typeshare]\npub const EDGE: Option<u32> = None;\n",
     "not_rust": NOT_RUST,
     "not_utf8": b"#[typeshare]\npub struct Edge { pub a: u32 } // \xff\xfe\n",
     "unit_struct": "#[typeshare]\npub struct Edge;\n",
@@ -172,7 +179,9 @@ def judge_vector(chk, v, r, written, files):
         comp += "+no-package-option"
     if site == "exit1-unnamed" and "+" not in comp:
         comp = "anycompanion"      # a diagnostic without a file name comes from a stage that has lost the file: companions do not matter
-    chk.mismatch(f"C07/{v['construct']}/{v['lang'] if 'language' in site or v['construct'].startswith('const') or 'language/' in site else 'anylang'}/{comp}/{site}",
+    # one root cause, one signature: whatever the constant looks like, Kotlin / Swift / Scala refuse it in the generation stage
+    label = "const_int" if v["construct"].startswith("const_") and "onstants are not supported" in r["stderr"] else v["construct"]
+    chk.mismatch(f"C07/{label}/{v['lang'] if 'language' in site or v['construct'].startswith('const') or 'language/' in site else 'anylang'}/{comp}/{site}",
                  f"{v['construct']} ({v['lang']}, {v['mode']}, companion={v['companion']}): {oc}; stderr: {r['stderr'][-300:].strip()}",
                  {"vector": v}, "exit 0 with output, or exit != 0 with a diagnostic naming the file", oc)
     return oc
